@@ -47,7 +47,10 @@ def run(chk, replay=None):
     k13 = Prog("fn g1(el: u1, acc: u1) -> u1 { 1 }\nfn main() { let a: u1 = fold::<g1, 4>(list![1, 1], 0); let c: u1 = fold::<g1, 8>(witness::W2, 0); assert!(jet::eq_1(c, 1)); }",
                [("W2", ("L", ("U", 0), 3))], "known/D13")
     k13.extra_assign = [[("W2", ("li", ("U", 0), 3, (("u", 0, 0),)))]]
-    gprogs = [k10, k13] + gprogs
+    k15 = Prog("fn helper2(el: bool, acc: List<u8, 2>) -> List<u8, 2> { list![0xff] }\nfn main() { let x: List<u8, 2> = fold::<helper2, 4>(list![], witness::W3); }",
+               [("W3", ("L", ("U", 3), 1))], "known/D15")
+    k15.extra_assign = [[("W3", ("li", ("U", 3), 1, (("u", 3, 61),)))]]
+    gprogs = [k10, k13, k15] + gprogs
     acc = corelib.check_terms(chk, gprogs + env_progs, dbgs=(0,))
     jobs = []
     for g in acc:
@@ -86,6 +89,9 @@ def run(chk, replay=None):
             elif cp != "ok":
                 chk.violation({"class": "prune-verdict", "what": "unpruned ok, pruned %s || %s" % (y[:80], g.text[:160])},
                               dict(base, expected="ok", broken="the unpruned program succeeds under env but satisfy_with_env(Some(env)) does not return a succeeding program"))
+            elif ("DIFF" in y or "decode=ok" not in y) and "depprune=same" in y and "mexec=ok" in y and "decode=ok" in x and "DIFF" not in x:
+                chk.violation({"class": "upstream-prune-encoding", "what": g.text[:300]},
+                              dict(base, broken="the encoding of the pruned program does not decode although simfony's unpruned program is healthy; the dependency's RedeemNode::prune applied to that unpruned program reproduces the returned program byte for byte (D15)"))
             elif "DIFF" in y or "decode=ok" not in y:
                 chk.violation({"class": "prune-encoding", "what": "%s || %s" % (y[:80], g.text[:160])}, dict(base, broken="the pruned program has a different CMR or does not decode"))
         elif cu == "failed":
